@@ -46,6 +46,7 @@ def parseAtom (t : String) : Option FAtom :=
   | "selectsNE" => some .selectsNE
   | "label" => some .label
   | "nsIndex" => some .nsIndex
+  | "valIndex" => some .valIndex
   | _ => if t.startsWith "g" then (t.drop 1).toString.toNat?.map FAtom.generic else none
 
 /-- `multi:gate:fetch;fetch` with `fetch = atom+atom`, e.g. `1:0:key+label;selects`. -/
